@@ -181,6 +181,14 @@ fn c03_collect(s: &In, at_end: bool, found: &mut Vec<Violation>) {
             if (h.exit.is_some() || at_end) && h.payload_err.is_none() && s.cfg.ep.read_mode == ReadMode::All && snt.complete_step.is_some() && h.payload != *payload && h.exit.is_some() {
                 found.push(viol(s, "payload", format!("q{qos}"), format!("handler read {:?} but {:?} was sent", h.payload, payload)));
             }
+            // a reader may only see an error when the connection ends; on a connection that is still healthy at
+            // the end of the run the handler of a completely delivered publish must have received its bytes
+            // (seeded change C03_r4: the failure of an earlier handler poisoned the stream of a later publish)
+            if at_end && healthy(s) && snt.complete_step.is_some() && s.cfg.ep.read_mode == ReadMode::All {
+                if let Some(e) = &h.payload_err {
+                    found.push(viol(s, "payload-error", format!("q{qos}"), format!("handler of PUBLISH id {id} got a payload read error ({e}) on a connection that stays up; sent {:?}", payload)));
+                }
+            }
         }
         if *qos == 0 {
             continue;
